@@ -423,6 +423,63 @@ def check(c, case, pid):
             continue          # .A / .S of a multi-valued object are the live list of values
         if o[0] == "ok" and not same(("ok", snap(r)), o):
             c.fail("%s/result_changed" % name, "the value returned by %s.%s changed after later calls on the same object" % (cn, name), call=name)
+    check_self_operand(c, case, pid)
+
+
+def self_operand_calls(cn):
+    """[(name, tags, g(A, B))]: binary operations; oracle g(X, X) == g(X, copy of X)"""
+    C = []
+
+    def add(name, tags, g):
+        C.append((name, set(tags.split()), g))
+    if cn in ("SO2", "SE2", "SO3", "SE3"):
+        add("X*X", "C01 C02 C09 C17", lambda A, B: A * B)
+        add("X/X", "C01 C02 C09 C17", lambda A, B: A / B)
+        add("X+X", "C08 C09 C17", lambda A, B: A + B)
+        add("X-X", "C08 C09 C17", lambda A, B: A - B)
+        add("X==X", "C08 C09 C17", lambda A, B: A == B)
+        add("X!=X", "C08 C09 C17", lambda A, B: A != B)
+        add("interp(X,s)", "C11 C17", lambda A, B: A.interp(B, 0.3) if len(A) == 1 else A.interp(0.3))
+        if cn == "SE3":
+            add("delta(X)", "C13 C17", lambda A, B: A.delta(B) if len(A) == 1 else None)
+    elif cn in ("Quaternion", "UnitQuaternion"):
+        add("X*X", "C12 C02 C09 C17 C01", lambda A, B: A * B)
+        add("X+X", "C12 C08 C17", lambda A, B: A + B)
+        add("X-X", "C12 C08 C17", lambda A, B: A - B)
+        add("X==X", "C08 C04 C17", lambda A, B: A == B)
+        add("inner(X)", "C12 C17", lambda A, B: A.inner(B))
+        if cn == "UnitQuaternion":
+            add("X/X", "C02 C01 C17", lambda A, B: A / B)
+            add("interp(s,X)", "C11 C17", lambda A, B: A.interp(0.3, B) if len(A) == 1 else None)
+    elif cn in ("Twist3", "Twist2"):
+        add("X*X", "C02 C18 C17", lambda A, B: A * B)
+    elif cn == "Plucker":
+        add("X==X", "C19 C17", lambda A, B: A == B)
+        add("X|X", "C19 C17", lambda A, B: A | B)
+        add("distance(X)", "C19 C17", lambda A, B: A.distance(B))
+        add("commonperp(X)", "C19 C17", lambda A, B: A.commonperp(B))
+    elif cn in ("SpatialVelocity", "SpatialAcceleration", "SpatialForce", "SpatialMomentum"):
+        add("X+X", "C20 C17", lambda A, B: A + B)
+        add("X-X", "C20 C17", lambda A, B: A - B)
+        if cn == "SpatialVelocity":
+            add("cross(X)", "C20 C17", lambda A, B: A.cross(B) if len(A) == 1 else None)
+    return C
+
+
+def check_self_operand(c, case, pid):
+    """the same object on both sides of an operator behaves like two objects holding the same values"""
+    cn = case["cls"]
+    X = make(cn, case["us"])
+    F = fresh(X)
+    for name, tags, g in self_operand_calls(cn):
+        if pid not in tags:
+            continue
+        oXX, _ = outcome(g, X, X)
+        oXF, _ = outcome(g, X, F)
+        if not same(oXX, oXF):
+            c.fail("%s/self_operand" % name, "%s with the same %s object on both sides gives %s, with an equal copy %s" % (name, cn, _short(oXX), _short(oXF)), call=name)
+    if not same(snap(X), snap(F)):
+        c.fail("self_operand/changed", "an operation with the same object on both sides changed it")
 
 
 def _short(o):
@@ -441,7 +498,8 @@ AUG_TEXT = (" Augmented operators (sub-checks 'augmented_cells', 'augmented'): X
 RULE_TEXT = (" History probe (sub-checks 'history_cells', 'history'): the calls of this property are evaluated on an object, the object is "
              "changed in place by a documented list operation of the same length (item assignment, reverse, insert+pop, append+pop), "
              "and every call must then give the same outcome as on a new object built from the values now held (no stale cached "
-             "results), while results returned earlier must not have changed (no reused result buffers).")
+             "results), while results returned earlier must not have changed (no reused result buffers); an operator with the same object "
+             "on both sides must behave like two objects holding the same values.")
 
 
 def run(case, pid):
